@@ -43,7 +43,10 @@ FinishDump == /\ Mode = "dump" /\ phase = "gen" /\ dump # <<>>
 ---------------------------------------------------------------------------
 IdPool == <<7, 8, 9, 7>>     \* the fourth operation reuses the id of the first
 Perms(S) == {q \in [1..Cardinality(S) -> S] : \A i, j \in 1..Cardinality(S) : i # j => q[i] # q[j]}
-SecChoices(nops) == UNION {Perms(S) : S \in (SUBSET (1..nops)) \ {{}}}
+Regular(nops) == UNION {Perms(S) : S \in (SUBSET (1..nops)) \ {{}}}
+(* ... and the same with one foreign section (entry 0) at any position, or alone *)
+InsForeign(q, k) == SubSeq(q, 1, k - 1) \o <<0>> \o SubSeq(q, k, Len(q))
+SecChoices(nops) == Regular(nops) \cup UNION {{InsForeign(q, k) : k \in 1..(Len(q) + 1)} : q \in Regular(nops) \cup {<<>>}}
 
 GenOps == /\ Mode = "race" /\ phase = "gen" /\ rep.nops = 0
           /\ \E nops \in 2..MaxG : \E nfr \in [1..nops -> 1..MaxFr] : \E kinds \in [1..nops -> {"r","w"}] :
@@ -64,7 +67,9 @@ Spec == Init /\ [][Next]_vars
 ---------------------------------------------------------------------------
 Lines == IF Mode = "dump" THEN PrintDump(dump, v) \o TailLines(v, tail)
          ELSE PrintReport(rep) \o TailLines(NoV, tail)
-Expected == IF Mode = "dump" THEN ExpectDump(dump) ELSE ExpectReport(rep)
+Foreign == Mode = "race" /\ HasForeign(rep)
+Expected == IF Mode = "dump" THEN ExpectDump(dump)
+            ELSE IF Foreign THEN ExpectReport(UpToForeign(rep)) ELSE ExpectReport(rep)
 NDump == IF Mode = "dump" THEN Len(PrintDump(dump, v)) ELSE Len(PrintReport(rep))
 
 (* The identity.  The first call returns exactly the expected snapshot, has
@@ -82,13 +87,14 @@ Fidelity ==
         lastUnav == Mode = "dump" /\ dump[Len(dump)].nfr = 0 /\ ~dump[Len(dump)].created
     IN /\ c.snap = Expected
        /\ c.fwd = <<>> /\ c.k1 = <<>>
-       /\ c.cons = [i \in 1..(nd + (IF blankAfter THEN 1 ELSE 0)) |-> i]
-       /\ c.err = (IF Mode = "race" THEN ""
+       /\ Foreign => c.err = "parse"          \* C08: an error, never a misattribution (Expected holds no frame of it)
+       /\ ~Foreign => c.cons = [i \in 1..(nd + (IF blankAfter THEN 1 ELSE 0)) |-> i]
+       /\ ~Foreign => c.err = (IF Mode = "race" THEN ""
                    ELSE IF tail \in {"eof", "blankeof"} THEN "eof"
                    ELSE IF v.ind # <<>> /\ tail \in {"junk", "blankjunk"} THEN "indent"
                    ELSE IF lastUnav /\ tail \in {"junk", "junkind"} THEN "parse"
                    ELSE "")
-       /\ \A i \in 2..Len(FC) : FC[i].snap = <<>> /\ FC[i].cons = <<>>
+       /\ ~Foreign => \A i \in 2..Len(FC) : FC[i].snap = <<>> /\ FC[i].cons = <<>>
 
 CaseJson == LET L == Lines IN
   ToJson([mode |-> Mode, lines |-> L, calls |-> FinalCallsOf(RunAll(L)), ndump |-> NDump])
